@@ -47,8 +47,11 @@ def make_member(r, kind):
     v = gen_fmt.value_of(kind, r)
     obj = gen_fmt.make_obj(kind, v)
 
+    # a Version with an epoch is only determined by a format with an epoch directive: the default placeholder (base format) is not one
+    allow_default = not (kind == "version" and "!" in v)
+
     def draw():
-        if r.random() < 0.2:
+        if allow_default and r.random() < 0.2:
             return None, obj.format(cls.base_fmt), set()
         for _ in range(20):
             toks, sep, det, kinds = gen_fmt.fmt_for(kind, r, v, **({"complete": True} if kind == "datetime" else {}))
@@ -62,6 +65,8 @@ def make_member(r, kind):
             if "{" in mf or "}" in mf:
                 continue
             return mf, obj.format(mf), set()
+        if not allow_default:
+            raise LookupError("no determining format drawn")
         return None, obj.format(cls.base_fmt), set()
     return cls, v, obj, draw
 
@@ -73,7 +78,7 @@ def same_obj(a, b):
 def sweep(tier: str) -> Sweep:
     r = rng("C03")
     sw = Sweep("C03")
-    n = 400 if tier == "quick" else 4000
+    n = 1200 if tier == "quick" else 8000
     for _ in range(n):
         k = r.randint(1, 4)
         names = member_names(r, k)
@@ -185,6 +190,36 @@ def sweep(tier: str) -> Sweep:
                 sw.check(g.groups[nm].value == cls.parse(t1, mf).value, "two agreeing occurrences are not merged into the member's value", {**case, "clause": "repeat-agree", "text": t1 + sep + t1}, t1, str(g.groups[nm].value))
             except Exception as e:  # noqa: BLE001
                 sw.check(False, "two agreeing occurrences of one member are rejected", {**case, "clause": "repeat-agree", "text": t1 + sep + t1}, "parsed", f"{type(e).__name__}: {e}")
+    # the same member names declared with different member classes, read with the same format string, in both orders of use:
+    # every group class answers with its own members
+    for _ in range(30 if tier == "quick" else 300):
+        names = member_names(r, r.randint(1, 3))
+        k1 = [r.choice(["serial", "naming", "version", "storage"]) for _ in names]
+        k2 = [r.choice(["serial", "naming", "version", "storage"]) for _ in names]
+        fmt = r.choice(SEPS).join("{" + nm + "}" for nm in names)
+        sep = fmt[len(names[0]) + 2: fmt.find("{", 1)] if len(names) > 1 else ""
+        results = {}
+        for order in ((k1, k2), (k2, k1)):
+            for kinds in order:
+                try:
+                    G = make_group({nm: gen_fmt.CLASSES[kd] for nm, kd in zip(names, kinds)})
+                    objs = {nm: gen_fmt.make_obj(kd, gen_fmt.value_of(kd, rng("C03fix" + kd))) for nm, kd in zip(names, kinds)}
+                    if any("!" in str(v.string) for v in objs.values()):
+                        continue
+                    text = sep.join(objs[nm].format(gen_fmt.CLASSES[kd].base_fmt) for nm, kd in zip(names, kinds))
+                    got = str(G.parse(text, fmt))
+                except Exception as e:  # noqa: BLE001
+                    got = "err:" + type(e).__name__
+                key = (tuple(kinds),)
+                sw.note(["c03-same-names", names, list(kinds), fmt], "same-names")
+                if key in results:
+                    sw.check(results[key] == got, "a group class answers differently after another group class with the same member names was used",
+                             {"clause": "same-names", "decl": [f"{a}:{b}" for a, b in zip(names, kinds)], "fmt": fmt}, results[key], got)
+                else:
+                    want = ", ".join(objs[nm].string for nm in names) if not got.startswith("err:") or True else None
+                    sw.check(got == ", ".join(objs[nm].string for nm in names), "a group does not read back its members' default-format renderings",
+                             {"clause": "same-names", "decl": [f"{a}:{b}" for a, b in zip(names, kinds)], "fmt": fmt, "text": text}, ", ".join(objs[nm].string for nm in names), got)
+                    results[key] = got
     return sw
 
 
@@ -192,7 +227,7 @@ def run(tier: str, drv_ok: bool) -> dict:
     res = {"sweep": sweep(tier)}
     if drv_ok:
         r = rng("C03corr")
-        cs = corr_fmt.group_cases(r, 150 if tier == "quick" else 2000)
+        cs = corr_fmt.group_cases(r, 300 if tier == "quick" else 2500)
         res["corr_diffs"] = cs.run()
         res["corr_stats"] = cs.stats()
         res["corr_samples"] = cs.desc[:3]
